@@ -1,6 +1,52 @@
 """Per-property driver configuration (level claimed, generation/non-triviality rule, assumptions)."""
 
 PROPS = {
+    "C06": {
+        "level": "fault_enumeration",
+        "workers": 16,
+        "engine": "E2-sim",
+        "technique": "fault enumeration inside generated histories: a crash image after every committed step, each restarted through the real start_with_config; oracles: rebuilt visible state and advertised state vs the harness model at the image; continuation to the C01 convergence verdict",
+        "level_text": ("for every generated history (local writes, complete / partial / empty deliveries, lossy sync, apply and clear steps on 2-3 real setup() nodes) a crash image (db + WAL as a dying "
+                       "process leaves them) of the designated node is taken after every step that committed on it - all commit boundaries of the history, incl. the point between the data commit and the "
+                       "in-memory update, which is the same image; each image is restarted with the real start_with_config (real bookkeeping reload, re-scheduling, apply loop): acknowledged and stored data "
+                       "present, completely buffered versions applied with no new delivery (positive polling), rebuilt generate_sync equal to the set model at the image (held only what is stored, everything "
+                       "lacking needed/partial with exact ranges); the final image is re-opened and the history continued to the convergence verdict"),
+        "level_note": "process-level crashes only (file copy between commits): torn pages / power loss under synchronous=NORMAL are outside what the harness can produce; the continuation re-opens the image with the harness' own copy of run()'s reload loop, the per-image checks use the real one",
+        "rule": ("generated: 2-3 nodes, designated crash node, 4-14 (quick) / 4-30 (thorough) ops of the C01 alphabet; crash points = every non-skipped step touching the crash node (images where suppliers "
+                 "disagreed about a version's last_seq are skipped and counted). evaluations = histories; restarts are counted in total_ops. Non-trivial: some image lies between a partial delivery and its "
+                 "apply, holds a completely buffered unapplied version, or follows a local write. Distinct = hash of the case."),
+        "assumptions": ["a crash image is db + -wal copied while no writer is inside a transaction", "the crashed node issues no further local transactions in the continuation"],
+    },
+    "C10": {
+        "level": "exploration",
+        "workers": 16,
+        "engine": "E2-sim",
+        "technique": "property-based stress of the real handle_changes loop with generated configurations, arrival sequences and an overload window (write connection held by the harness); oracle: containment of every offered changeset after <=4 re-offer rounds + set model of the advertised state + visibility shadow",
+        "level_text": ("the receiver runs the real handle_changes (feature-gated re-export) on its real ingest channel with generated processing_queue_len 1-6, apply_queue_len 1-4, changes_channel_len 1-8; "
+                       "changesets of 1-3 origin actors (complete, partial seq-range chunks cut by the real handle_need, Empty, exact duplicates) arrive while the harness holds the write connection for a "
+                       "generated window, so jobs block, the queue overflows and the oldest entries are shed; afterwards everything not yet contained is offered again (as sync does), at most 4 rounds, with "
+                       "positive polling; then every offered changeset must be contained, the advertised state must equal the set model of everything offered and the tables the visibility shadow"),
+        "level_note": "the interleaving of the up to five concurrent process_multiple_changes jobs is scheduler-owned (sampled, not enumerated); waiting is positive polling (stable for 400 ms), a slow machine can only cost extra re-offer rounds",
+        "rule": ("generated: 1-3 origins with 1-5 transactions, 4-23 extra partial chunks (1-2 seq ranges each) cut by the origins, 10-40 (quick) / 10-60 (thorough) arrivals picked from the pool with "
+                 "duplicates, overload window [from, from+len). Non-trivial: a re-offer round was needed, or the queue overflowed while traffic of >=2 actors arrived in the overload window. Distinct = hash of the case."),
+        "assumptions": ["offers that hit a full ingest channel for 200 ms while the node is blocked count as lost (a timed-out peer)", "the apply loop is played by the harness (same call)"],
+    },
+    "C17": {
+        "level": "exploration",
+        "workers": 16,
+        "engine": "E3-live",
+        "technique": "property-based testing against a live API listener (start_with_config on loopback): generated route x method x Authorization-shape x acting-body request sequences, and generated statement texts for the read endpoints; oracle: HTTP status class + digest of the whole database file, advertised sync state and subscriptions directory before/after every request",
+        "level_text": ("a full agent (real axum router, middleware, pools) is started per case with a generated token (or none); 6-23 requests per case over all 7 routes + an unknown path, right and wrong method, "
+                       "15 Authorization shapes derived from the configured token (missing, exact, wrong, prefix, suffix, one extra char, one letter case-flipped, other scheme, empty, scheme only, token only, ...); every "
+                       "request carries a body that acts if admitted (INSERT, CREATE TABLE, new subscription). Not-exact credentials must get 4xx and leave database digest, advertised state and the subscriptions directory "
+                       "unchanged; the exact token is never answered 401; without token no request is answered 401. Read endpoints: 8-29 statements per case (DML, DDL, PRAGMA, ATTACH, VACUUM, multi-statement, CTE-wrapped "
+                       "writes, RETURNING, writes to crsql_changes and __corro tables, SELECTs calling each side-effecting cr-sqlite function with and without FROM) to /v1/queries and /v1/subscriptions; whatever the "
+                       "status, digest and advertised state must be unchanged"),
+        "level_note": "header shapes the statement does not decide (lower-case scheme, trailing space, repeated header) are sent but only the 'rejected => no action' half is asserted for them; the digest covers every table except __corro_members, plus sqlite_schema and user_version; in-memory-only effects other than the advertised sync state are not observed",
+        "rule": ("generated: token [A-Za-z0-9._~+/-]{8,40} or none (1 in 4); requests as above; statements from a grammar of 40+ templates with generated values. Non-trivial (authz): a request that would have acted (transactions, migrations, "
+                 "subscriptions with the right method) was rejected for its credentials; (read-only): a statement calling a cr-sqlite function was accepted (status 200) by a read endpoint and the digest compared. Distinct = hash of the case."),
+        "assumptions": ["a write admitted by mistake commits within 5-10 ms of the response (the digest is taken after that pause)", "TLS / admin socket are out of scope of the statement"],
+    },
     "C05": {
         "level": "exploration",
         "workers": 16,
